@@ -308,7 +308,9 @@ fn long_scan_case(rc: &RunCtx) -> Case {
     use crate::model::*;
     let mut r = Rng::stream(rc.run_seed, "scan");
     let k = ((rc.index / 16) % 16) as usize;
-    let big_bytes = (64 + k + 16 * r.usize_below(4)) * 1020 + r.usize_below(1020);
+    // now and then beyond 256 pages (another size at which caches and tables wrap)
+    let extra_pages = if r.chance(1, 6) { 200 + r.usize_below(200) } else { 16 * r.usize_below(4) };
+    let big_bytes = (64 + k + extra_pages) * 1020 + r.usize_below(1020);
     let xyz = |r: &mut Rng| -> Vec<Rec> {
         let dt = if r.chance(1, 2) { DType::Double { min: None, max: None } } else { DType::Single { min: None, max: None } };
         [0u8, 1, 2].iter().map(|i| Rec { name: Name::Std(*i), dt: dt.clone() }).collect()
@@ -382,6 +384,10 @@ fn long_scan_case(rc: &RunCtx) -> Case {
             let at_op = if r.chance(2, 3) { 0 } else { r.usize_below(hist.len()) };
             faults.push((at_op, r.below(400), kind));
         }
+        // the long operation once more at the end: pages it loaded before and around the fault
+        // are loaded again on the same reader
+        let again: Vec<ROp> = hist.iter().take(2).cloned().collect();
+        hist.extend(again);
     }
     let mut c = Rng::stream(rc.run_seed, "chunk-dev");
     Case { prog, damage, sealed: false, hist, faults, sink_faults: vec![], rchunk: Chunk::draw(&mut c) }
@@ -395,7 +401,7 @@ impl Prop for C17 {
     fn meta(&self) -> Meta {
         Meta {
             level: "exploration",
-            rule: "source file = seeded writer program (0-5 items, knob on) written fault-free; optionally static damage located with the crate's own descriptors: 1-2 bit flips in section pages, unsealed (damaged pages) or resealed (damaged section / packet headers); history of 2-12 seeded read operations on ONE open E57Reader<SimDisk> (xml, listings, raw / simple iteration with early termination after 0..40 points and drawn option bits, blob extraction into chunked sinks) under a seeded short-read schedule; in every second run up to three transient device faults (hard error; short transfer then error; TimedOut / WouldBlock / Interrupted) at drawn device operations INSIDE drawn history operations, or one transient condition in EVERY operation of the history; everything else fault-free. Every sixteenth run is a long-scan case: an item of 64..130 pages (blob or point cloud, page count over every residue modulo 16, half of the time written with the library's own packet capacity so that byte streams of ~20 KiB per packet are read) is read to its end, then its short neighbour, while a page of the item behind the neighbour is damaged; a third of these cases carry device faults inside the scan. A quarter of the blob extractions have a sink that reports an error at one of its first writes. Iterators are polled three more times after their first error: what they hand out then belongs to the operation's result. Oracle: each operation without an injected fault equals the result of the same operation on a freshly opened reader over the same stored bytes; an operation with an injected fault is Err (what it yielded before is a prefix of the fresh result) or equals the fresh result; where exactly one fault hit the first read of a page inside an operation, the operation must in addition fail or succeed exactly as on a fresh reader whose device injects the same fault at its first read of that page (whether a fault surfaces or is absorbed must not depend on the history). Distinct = hash(history op kinds/targets/early-termination class, Ok/Err pattern, fault kinds, damage mode); non-trivial = at least two operations touched the device".into(),
+            rule: "source file = seeded writer program (0-5 items, knob on) written fault-free; optionally static damage located with the crate's own descriptors: 1-2 bit flips in section pages, unsealed (damaged pages) or resealed (damaged section / packet headers); history of 2-12 seeded read operations on ONE open E57Reader<SimDisk> (xml, listings, raw / simple iteration with early termination after 0..40 points and drawn option bits, blob extraction into chunked sinks) under a seeded short-read schedule; in every second run up to three transient device faults (hard error; short transfer then error; TimedOut / WouldBlock / Interrupted) at drawn device operations INSIDE drawn history operations, or one transient condition in EVERY operation of the history; everything else fault-free. Every sixteenth run is a long-scan case: an item of 64..130 pages (blob or point cloud, page count over every residue modulo 16, half of the time written with the library's own packet capacity so that byte streams of ~20 KiB per packet are read) is read to its end, then its short neighbour, while a page of the item behind the neighbour is damaged; a third of these cases carry device faults inside the scan and repeat the scan behind them; one case in six scans more than 256 pages. A quarter of the blob extractions have a sink that reports an error at one of its first writes. Iterators are polled three more times after their first error: what they hand out then belongs to the operation's result. Oracle: each operation without an injected fault equals the result of the same operation on a freshly opened reader over the same stored bytes; an operation with an injected fault is Err (what it yielded before is a prefix of the fresh result) or equals the fresh result; where exactly one fault hit the first read of a page inside an operation, the operation must in addition fail or succeed exactly as on a fresh reader whose device injects the same fault at its first read of that page (whether a fault surfaces or is absorbed must not depend on the history). Distinct = hash(history op kinds/targets/early-termination class, Ok/Err pattern, fault kinds, damage mode); non-trivial = at least two operations touched the device".into(),
             assumptions: vec![
                 "errors are compared as 'is Err' only".into(),
                 "iterators are driven to the first Err or None".into(),
